@@ -36,7 +36,7 @@ func (c13) Assumptions() []string {
 func (c13) RequiredBuckets(tier string) []string {
 	return []string{"control:clean-entry-reads-back", "flip:header", "flip:body", "truncate", "extend", "wrong-key:renamed", "wrong-key:in-place",
 		"crash:created", "crash:placeholder", "crash:body-write", "crash:flate-closed", "crash:hashed", "crash:pre-header", "crash:post-header", "tear",
-		"fault:open-failed", "crash:over-an-earlier-entry", "cli:crash-then-clean-run", "cli:multi-MiB-output", "cli:two-inputs,-same-arguments", "body:empty", "body:multi-block", "body:stored-size-block-aligned", "body:several-MiB"}
+		"fault:open-failed", "crash:over-an-earlier-entry", "cli:crash-then-clean-run", "cli:multi-MiB-output", "cli:two-inputs,-same-arguments", "body:empty", "body:multi-block", "body:stored-size-block-aligned", "body:several-MiB", "writers:overlapping"}
 }
 
 type body struct {
@@ -466,7 +466,91 @@ func (m c13) Run(c *fw.Ctx) {
 		os.Remove(x.path())
 	}
 	m.bigBody(c, x)
+	m.overlappingWriters(c, x)
 	m.cliCrashes(c)
+}
+
+// overlappingWriters: two entries (different keys) are written at the same
+// time by one process, their writes interleaved; each reads back its own body.
+func (m c13) overlappingWriters(c *fw.Ctx, x *c13ctx) {
+	r := c.SubRng("c13-overlap")
+	for round := 0; round < 6; round++ {
+		if !c.NextShared() {
+			continue
+		}
+		na, nb := 1+r.Intn(40000), 1+r.Intn(40000)
+		a, b := make([]byte, na), make([]byte, nb)
+		for i := range a {
+			a[i] = "acgtn"[r.Intn(5)]
+		}
+		for i := range b {
+			b[i] = "RYKMSW\n"[r.Intn(7)]
+		}
+		ra, rb := sum(fmt.Sprintf("root-a-%d", round)), sum(fmt.Sprintf("root-b-%d", round))
+		enc := fmt.Sprintf("two writers at once: %d bytes and %d bytes, writes interleaved in chunks of 1..5000", na, nb)
+		c.Begin(enc)
+		c.Count(enc, true)
+		c.Bucket("writers:overlapping")
+		cache.VerifPlan = func(string, int) string { return "" }
+		cache.VerifReset()
+		var err error
+		pn, val, site, stack := fw.Guard(func() {
+			var fa, fb *cache.File
+			if fa, err = cache.CreateLevel(x.dir, sha1.New(), ra, x.dsum, 1); err != nil {
+				return
+			}
+			if fb, err = cache.CreateLevel(x.dir, sha1.New(), rb, x.dsum, 1); err != nil {
+				return
+			}
+			pa, pb := 0, 0
+			for pa < na || pb < nb {
+				if pa < na {
+					n := 1 + r.Intn(5000)
+					if pa+n > na {
+						n = na - pa
+					}
+					if _, err = fa.Write(a[pa : pa+n]); err != nil {
+						return
+					}
+					pa += n
+				}
+				if pb < nb {
+					n := 1 + r.Intn(5000)
+					if pb+n > nb {
+						n = nb - pb
+					}
+					if _, err = fb.Write(b[pb : pb+n]); err != nil {
+						return
+					}
+					pb += n
+				}
+			}
+			if err = fa.Close(); err != nil {
+				return
+			}
+			err = fb.Close()
+		})
+		if pn {
+			c.ViolateX("overlapping-writers:"+panicClass(site, val), enc, "no panic", fmt.Sprint(val), stack, nil)
+			continue
+		}
+		if err != nil {
+			c.Violate("overlapping-writers:write-error", enc, "both entries written", err.Error())
+			continue
+		}
+		for i, w := range []struct {
+			rs   []byte
+			body []byte
+		}{{ra, a}, {rb, b}} {
+			ok, data, oerr := x.open(w.rs, x.dsum)
+			if !ok || oerr != nil || !bytes.Equal(data, w.body) {
+				c.Violate("overlapping-writers:entry-does-not-read-back", enc, fmt.Sprintf("entry %d opens and reads back its %d bytes", i+1, len(w.body)), fmt.Sprintf("opened=%v err=%v, %d bytes (sha1 %s vs %s)", ok, oerr, len(data), sha(data), sha(w.body)))
+				break
+			}
+		}
+		os.Remove(filepath.Join(x.dir, entryName(ra, x.dsum)))
+		os.Remove(filepath.Join(x.dir, entryName(rb, x.dsum)))
+	}
 }
 
 // bigBody: one entry of several MiB (incompressible, so the stored body is as
